@@ -608,6 +608,15 @@ class ExprMixin:
             if args:
                 return SuperProxy(self, args[1], args[0])
             return SuperProxy(self, fr0.self_obj, fr0.cls)
+        if isinstance(f, type) and f in self.type_calls:
+            return self.type_calls[f](*args, **kw)
+        mod = getattr(f, "__module__", None) or type(getattr(f, "__self__", None)).__module__
+        if isinstance(mod, str) and (mod.startswith("libsbml") or mod.startswith("_libsbml")):
+            # doubles crossing into a C library
+            args = [float(a) if isinstance(a, Fraction) else a for a in args]
+            kw = {k: (float(v) if isinstance(v, Fraction) else v) for k, v in kw.items()}
+            if any(is_sym(a) for a in args) or any(is_sym(v) for v in kw.values()):
+                raise Unsupported("symbolic value passed to libsbml")
         return f(*args, **kw)
 
     def e_LambdaNode(self, n, fr):
